@@ -842,6 +842,26 @@ func ruleC15(c *Ctx, r *Report) {
 			if renames {
 				renamingLoops++
 				r.Check(len(ic.KeyProblems) == 0, "C15-R3", ic.construct()+":key-rename", c.Pos(ic.Loop.Loop.Header.Instrs[0].Pos()), "non-operator keys stored as HashName(current key) under the flag parameter", strings.Join(ic.KeyProblems, "; "))
+			} else {
+				// a loop of a flag-carrying walker that rebuilds a document of the input under
+				// its own keys and never renames them: its keys stay in clear under the mode
+				// (the output-field names of $facet - hunt 4, F-60)
+				carriesFlag := false
+				for _, prm := range f.Params {
+					if flags[prm] {
+						carriesFlag = true
+					}
+				}
+				storesKey := false
+				for _, sk := range ic.Sinks {
+					if call, ok := sk.(*ssa.Call); ok && len(call.Call.Args) > 1 && p.isElemKey(call.Call.Args[1], ic.Loop) {
+						storesKey = true
+					}
+				}
+				if carriesFlag && storesKey {
+					r.Bad("C15-R3", ic.construct()+":keys-never-renamed", c.Pos(ic.Loop.Loop.Header.Instrs[0].Pos()),
+						"a document of the input is rebuilt member by member under its own keys, and no path renames a key under the field-name flag: names the client chose (the output fields of $facet) stay in clear although the stages that refer to them are renamed")
+				}
 			}
 		}
 	}
@@ -1271,6 +1291,8 @@ func planSummaryTokenizerRule(c *Ctx, r *Report, planFn *ssa.Function) {
 		{"DISTINCT_SCAN { city: 1, owner.name: 1 }", []string{"city", "owner.name"}},
 		{"EXPRESS_IXSCAN { _id: 1 }", []string{"_id"}},
 		{"IXSCAN { caf\u00e9.prix: 1, $**: 1 }", []string{"caf\u00e9.prix", "$**"}},
+		// field names may hold spaces (hunt 4, F-61): the key is what stands between '{' / ',' and ':'
+		{"IXSCAN { Maiden Surname: 1, address.Home Town: -1 }", []string{"Maiden Surname", "address.Home Town"}},
 	}
 	var bad []string
 	for _, pr := range probes {
